@@ -424,22 +424,24 @@ def r_new_valid(rep, prog):
     # --- the 3x3 table inside valid
     v = lib.need_body(prog, VALID)
     vtm = T.Terms(v, prog)
+    # atoms: every comparison / overlap call evaluated in valid(), with the local that holds its result
     atoms = []
-    for s in range(v.nblocks()):
-        t = v.term(s)
-        if t["k"] == "switch":
-            atoms.append((s, vtm.operand(t["discr"]), "switch"))
+    atom_local = {}
+    for bi, si, st in v.stmts():
+        if st["k"] == "assign" and not st["place"].get("p") and st["rv"]["k"] == "binop" and st["rv"]["op"] in ("Eq", "Ne", "Lt", "Le", "Gt", "Ge"):
+            t = vtm.rvalue(st["rv"])
+            atoms.append((bi, t, "cmp"))
+            atom_local[len(atoms) - 1] = st["place"]["l"]
+    for bi, t_ in v.calls():
+        cn = callee_name(t_["callee"]) or ""
+        if cn == "llfree::MetaData::valid::overlap" and not t_["dest"].get("p"):
+            atoms.append((bi, vtm.call_term(bi), "call"))
+            atom_local[len(atoms) - 1] = t_["dest"]["l"]
+        elif cn.startswith("llfree::") and not t_["dest"].get("p") and v.local_ty(t_["dest"]["l"]) == "bool":
+            # a local helper that evaluates one of the conditions (`fn aligned(buf) -> bool`)
+            atoms.append((bi, lib.inline_pure(prog, vtm.call_term(bi)), "helper"))
+            atom_local[len(atoms) - 1] = t_["dest"]["l"]
     true_blocks = []
-    for bi, si, rv in lib.assignments_to_return(v):
-        if si == "term":
-            continue
-        t = vtm.rvalue(rv)
-        if t[0] == "c":
-            if t[1] == 1:
-                true_blocks.append(bi)
-            continue
-        atoms.append((bi, t, "ret"))
-        true_blocks.append(bi)
     table = {}
 
     def fld(t):
@@ -484,29 +486,34 @@ def r_new_valid(rep, prog):
         e = table.get(("overlap", pair))
         rep.check(e is not None, rule, "valid|overlap|%s" % pname, "overlap(%s) is checked" % pname,
                   "valid() does not check that %s do not overlap" % pname, v.span)
-    # every switch atom's passing edge dominates the only non-false return
-    nonfalse = [bi for bi in true_blocks]
-    rep.check(len(nonfalse) == 1, rule, "valid|single-true", "one non-false result site", "%d non-false result sites" % len(nonfalse), v.span)
-    if len(nonfalse) == 1:
-        tb = nonfalse[0]
-        for where, t, how in atoms:
-            if how != "switch":
+    # valid() can only return true when every atom passed: path-sensitive, so that `let large_enough = a && b; large_enough && ..`
+    # and the plain && chain are the same to the rule
+    import cfg as _cfg
+    ps = PathSens(v, prog, track=lambda n: bool(n) and n.startswith("llfree::"), keep_dead=not _cfg.natural_loops(v))
+    bad = {}
+    n_true = 0
+    for rn in ps.return_nodes():
+        env = ps.term_env_of(rn)
+        if env.get(("v", 0)) == 0:
+            continue
+        n_true += 1
+        for i, (where, t, how) in enumerate(atoms):
+            l_ = atom_local[i]
+            core_t = lib.inline_pure(prog, t, exclude=("llfree::MetaData::valid::overlap",))
+            want = 0 if how == "call" else 1
+            got = env.get(("v", l_))
+            if how in ("call", "helper") and got is None:
+                got = env.get(("c", where))
+            # the last conjunct is the returned value itself: `_0 = atom` / `_0 = !overlap(..)`
+            rel0 = env.get(("rel", 0))
+            if got is None and rel0 is not None and rel0[1] == l_ and rel0[0] == ("not" if want == 0 else "id"):
                 continue
-            pass_val = False if (t[0] == "call" and t[1].endswith("::overlap")) else True
-            succs = v.succ(where)
-            good = False
-            for d in succs:
-                if lib.bool_edge_polarity(v, where, d) == pass_val and cfg.edge_dominates(v, (where, d), tb):
-                    good = True
-            rep.check(good, rule, "valid|conj|bb%d" % 0 + "|" + T.show(t)[:60], "true result requires this condition",
-                      "valid() can return true although `%s` failed" % T.show(t), v.term(where).get("span"))
-        # final term polarity: Not(overlap)
-        for where, t, how in atoms:
-            if how == "ret":
-                rep.check(t[0] == "un" and t[1] == "Not" and t[2][0] == "call" and t[2][1].endswith("::overlap"),
-                          rule, "valid|final-term", "result is !overlap(..) of the last pair",
-                          "final conjunct is not a negated overlap: " + T.show(t), v.span)
-
+            if got != want:
+                bad[i] = T.show(t)[:80]
+    rep.check(n_true >= 1, rule, "valid|single-true", "%d result states that can be true" % n_true, "valid() never returns true", v.span)
+    for i, (where, t, how) in enumerate(atoms):
+        rep.check(i not in bad, rule, "valid|conj|" + T.show(t)[:60], "a true result requires this condition",
+                  "valid() can return true although `%s` failed (or was not evaluated on that path)" % T.show(t)[:100], v.span)
 
 def r_overlap_symmetric(rep, prog, rule="R-NEW-VALID"):
     """The interval test behind every `overlap(x, y)` conjunct of valid(): two non-empty ranges intersect iff
